@@ -145,6 +145,7 @@ var v11Sizes = []int64{1200, 1252, 1280, 1350, 1452, 1500}
 
 type v11Sim struct {
 	rt       *rapid.T
+	st       *vStats
 	b        *BrutalSender
 	rtt      *v11RTT
 	bps      int64
@@ -166,6 +167,9 @@ type v11Sim struct {
 }
 
 func (s *v11Sim) fail(format string, a ...any) {
+	if s.st != nil { // account the failing case before Fatalf (it never reaches the st.Case at the end)
+		s.st.Case(false, "failed", []string{"FAILED"}, func() string { return fmt.Sprintf(format, a...) })
+	}
 	s.rt.Fatalf("C11: %s\n bps=%d lossCompensationDisabled=%v mds=%d srtt=%v now=%d inflight=%d ackRate=%v pacer{budgetAtLastSent,lastSentTime}\n history: %s",
 		fmt.Sprintf(format, a...), s.bps, s.disabled, s.mds, s.rtt.srtt, s.now, s.inflight, s.b.ackRate, v11Render(s.calls))
 }
@@ -349,7 +353,7 @@ func v11RunCase(rt *rapid.T, st *vStats) {
 		bps = 65536
 	}
 	disabled := rapid.IntRange(0, 4).Draw(rt, "disableLossCompensation") == 0
-	s := &v11Sim{rt: rt, bps: bps, disabled: disabled, mds: 1280, maxMds: 1280, lastSec: -1}
+	s := &v11Sim{rt: rt, st: st, bps: bps, disabled: disabled, mds: 1280, maxMds: 1280, lastSec: -1}
 	s.model.buckets = map[int64][2]uint64{}
 	s.rtt = &v11RTT{}
 	s.b = NewBrutalSender(uint64(bps), disabled)
@@ -502,7 +506,7 @@ func TestVerifC11_SustainedRate(t *testing.T) {
 		loss := rapid.SampledFrom([]float64{0, 0.02, 0.1, 0.2, 0.35, 0.6}).Draw(rt, "loss")
 		mds := rapid.SampledFrom(v11Sizes).Draw(rt, "size")
 		maxPackets := rapid.IntRange(2000, 30000).Draw(rt, "maxPackets")
-		s := &v11Sim{rt: rt, bps: bps, disabled: disabled, mds: 1280, maxMds: 1500, lastSec: -1}
+		s := &v11Sim{rt: rt, st: st, bps: bps, disabled: disabled, mds: 1280, maxMds: 1500, lastSec: -1}
 		s.model.buckets = map[int64][2]uint64{}
 		// RTT large enough that 2 x bps x RTT comfortably exceeds burst + rate x RTT
 		srtt := 50 * time.Millisecond
@@ -520,7 +524,8 @@ func TestVerifC11_SustainedRate(t *testing.T) {
 			lost bool
 		}
 		var pending []fb // feedback due, in send order (constant RTT => in order)
-		var firstWait, bytesAfter int64
+		var firstWait, bytesAfter, lastWait, bytesAtLastWait int64
+		packetsAtLastWait := 0
 		packets, wakes, afterPackets, cwndBlocked := 0, 0, 0, 0
 		lossAcc := 0.0
 		deadline := s.now + int64(30*time.Second)
@@ -554,6 +559,8 @@ func TestVerifC11_SustainedRate(t *testing.T) {
 				if firstWait == 0 {
 					firstWait = s.now
 				}
+				// at a wait the bucket holds less than one datagram: everything accrued so far was released
+				lastWait, bytesAtLastWait, packetsAtLastWait = s.now, bytesAfter, afterPackets
 				wakes++
 				// feedback that is due before the wake-up is processed first (quic-go re-queries after each ACK)
 				if len(pending) > 0 && pending[0].at < w {
@@ -577,8 +584,9 @@ func TestVerifC11_SustainedRate(t *testing.T) {
 			}
 			pending = append(pending, fb{s.now + int64(srtt), lost})
 		}
-		span := s.now - firstWait
+		span := lastWait - firstWait
 		ideal := float64(bps) * float64(span) / 1e9
+		bytesAfter, afterPackets = bytesAtLastWait, packetsAtLastWait
 		nt := firstWait != 0 && afterPackets >= 200 && wakes >= 20 && cwndBlocked == 0
 		ratio := 0.0
 		if nt {
